@@ -24,3 +24,18 @@ func TestEdgeSizes(t *testing.T) {
 	}
 	t.Logf("%d and %d edges", len(EdgeSizes(0, 10000)), len(e))
 }
+
+func TestCollidingPairs(t *testing.T) {
+	p := CollidingPairs()
+	byName := map[string]int{}
+	for _, x := range p {
+		if x.A == x.B || len(x.A) != len(x.B) {
+			t.Errorf("bad pair %+v", x)
+		}
+		byName[x.Checksum]++
+	}
+	if len(byName) < 9 {
+		t.Errorf("collisions found for %d of 9 checksums: %v", len(byName), byName)
+	}
+	t.Logf("%d pairs: %v", len(p), byName)
+}
